@@ -692,7 +692,16 @@ class FakedWBEMConnection(WBEMConnection):
                                   search_paths=search_paths,
                                   verbose=verbose, **log_func_kwargs)
 
-            mofcomp.compile_file(mof_file, namespace)
+            # The MOF compiler writes each compiled element to the CIM
+            # repository when it is compiled; restore the CIM repository if
+            # the compilation fails at a later element.
+            snapshot = self.cimrepository.snapshot()
+            try:
+                mofcomp.compile_file(mof_file, namespace)
+            except Exception:
+                self.cimrepository.restore(snapshot)
+                self._mofwbemconnection.classes = NocaseDict()
+                raise
 
     def compile_mof_string(self, mof_str, namespace=None, search_paths=None,
                            verbose=None):
@@ -766,7 +775,16 @@ class FakedWBEMConnection(WBEMConnection):
                                   search_paths=search_paths,
                                   verbose=verbose, **log_func_kwargs)
 
-            mofcomp.compile_string(mof_str, namespace)
+            # The MOF compiler writes each compiled element to the CIM
+            # repository when it is compiled; restore the CIM repository if
+            # the compilation fails at a later element.
+            snapshot = self.cimrepository.snapshot()
+            try:
+                mofcomp.compile_string(mof_str, namespace)
+            except Exception:
+                self.cimrepository.restore(snapshot)
+                self._mofwbemconnection.classes = NocaseDict()
+                raise
 
     def compile_schema_classes(self, class_names, schema_pragma_files,
                                namespace=None, verbose=False):
@@ -845,14 +863,22 @@ class FakedWBEMConnection(WBEMConnection):
             # Build the pragma file and compile for each pragma file in
             # schema_pragma_files. The search path for each compile is the
             # directory containing that schema_pragma_file
-            for schema_pragma_file in schema_pragma_files:
-                search_path = os.path.dirname(schema_pragma_file)
-                compile_pragma = build_schema_mof(
-                    class_names, schema_pragma_file)
-                self.compile_mof_string(compile_pragma,
-                                        namespace=namespace,
-                                        search_paths=search_path,
-                                        verbose=verbose)
+            # Each compile_mof_string() call restores the CIM repository when
+            # it fails; this restores in addition what the calls for previous
+            # schema pragma files have added.
+            snapshot = self.cimrepository.snapshot()
+            try:
+                for schema_pragma_file in schema_pragma_files:
+                    search_path = os.path.dirname(schema_pragma_file)
+                    compile_pragma = build_schema_mof(
+                        class_names, schema_pragma_file)
+                    self.compile_mof_string(compile_pragma,
+                                            namespace=namespace,
+                                            search_paths=search_path,
+                                            verbose=verbose)
+            except Exception:
+                self.cimrepository.restore(snapshot)
+                raise
 
     ######################################################################
     #
